@@ -438,9 +438,18 @@ class Engine:
         self.checks += 1
         return r != z3.unsat
 
-    def valid(self, st: State, f) -> bool:
+    def valid(self, st: State, f, full_timeout_ms=2000) -> bool:
         """Is f implied by the path condition (used only for simplification, never for verdicts)?"""
-        s = self.solver(2000)
+        g = self.solver(1000, ground_only=True)          # fewer hypotheses: unsat here is unsat with all of them
+        g.add(*st.pc)
+        g.add(z3.Not(f))
+        t = time.time()
+        r = g.check()
+        self.solver_time += time.time() - t
+        self.checks += 1
+        if r == z3.unsat:
+            return True
+        s = self.solver(full_timeout_ms)
         s.add(*st.pc)
         s.add(*st.qpc)
         s.add(z3.Not(f))
@@ -601,6 +610,8 @@ class Engine:
             return eqf(a.z, b.z)
         if type(a) is not type(b):
             return z3.BoolVal(False)
+        if isinstance(a, VClass):
+            return z3.BoolVal(a.name == b.name)           # class objects: identity
         raise Undecided(f"== between {type(a).__name__} and {type(b).__name__}")
 
     def identical(self, a: V, b: V, st: State):
